@@ -29,6 +29,7 @@ ASSUMPTIONS = ["grammar and expected values come from vf/ref/p1_ref.py and the f
 WATCHDOG_S = {"quick": 900, "thorough": 7200}
 N = {"quick": 320, "thorough": 12500}
 
+_PRIMERS = None
 TEXT_CHARS = "ABCDEFGHIJKLMNOPQRSTUVWXYZabcdefghijklmnopqrstuvwxyz0123456789.-:_ "
 
 
@@ -192,6 +193,29 @@ def check_block(block, parse_expect, decode_expect, ident, ctx) -> None:
     except BaseException as ex:
         ctx.violation(f"C11:autodecoder:exception:{p1_mon.where(ex)}", f"AutoDecoder raised {ex!r:.150}", case)
         return
+    # an AutoDecoder whose last success was another meter's decoder must decode the readout just the same
+    global _PRIMERS
+    if _PRIMERS is None:
+        import random as _random
+
+        from vf.gen import pool as _pool
+
+        _PRIMERS = {}
+        for _label, fam, form, data in _pool.genuine(_random.Random(1), 1):
+            _PRIMERS.setdefault(_pool.own_decoder(fam, form), data)
+    for name, primer in _PRIMERS.items():
+        try:
+            ad = AutoDecoder()
+            ad.decode_message_payload(primer)
+            primed_name = ad.previous_success_decoder
+            a3 = ad.decode_message(ro)
+        except BaseException as ex:
+            ctx.violation(f"C11:autodecoder:exception:{p1_mon.where(ex)}", f"AutoDecoder primed with {name} raised {ex!r:.120}", case)
+            continue
+        ctx.count("primed_autodecoder_readouts")
+        if a3 != full:
+            ctx.violation("C11:autodecoder:message-differs-after-other-decoder", f"AutoDecoder whose previous success was {primed_name}: decode_message(DataReadout) = {a3!r:.80} != decode_p1_readout", case)
+            break
     if a1 != dec:
         ctx.violation("C11:autodecoder:payload-differs", f"AutoDecoder.decode_message_payload(block) = {a1!r:.80} != decode_p1_readout_content", case)
     if a2 != full:
